@@ -34,6 +34,7 @@ SCOPE = "parol::generators::symbol_table::Scope"
 def check(ctx):
     facts = ctx.facts()
     cg = CallGraph(facts)
+    rn.rn0(ctx, facts, "R33.0")
     rn.rn1(ctx, facts, cg, "R33.1", ["parol::generators"], 4)
     writers = set()
     for b in facts.in_crate(PA):
